@@ -2426,3 +2426,89 @@ func checkCounterValuesNonNegative(p *Prog, res *Result, rule string) {
 		res.ok(rule, "counter emissions", "-", fmt.Sprintf("%d emission(s), no value derived from a subtraction", n))
 	}
 }
+
+// checkRingSingleSnapshot (C05-R19): what a method of the event cache answers is one snapshot of the cache: the method
+// takes the cache's lock at most once per call, directly or through the methods it calls. A method that reads the two
+// ends of the window in one critical section and searches in a second one combines the ends of one state with the
+// events of another - a watch then resumes after an event it never replayed, or replays one it will also get live.
+func checkRingSingleSnapshot(p *Prog, res *Result, rule string) {
+	rings, _ := findRings(p)
+	n := 0
+	for named := range rings {
+		isMethod := func(f *ssa.Function) bool {
+			if f == nil || f.Signature.Recv() == nil {
+				return false
+			}
+			rt := f.Signature.Recv().Type()
+			if pt, ok := rt.(*types.Pointer); ok {
+				rt = pt.Elem()
+			}
+			return rt == types.Type(named)
+		}
+		acquires := map[*ssa.Function]bool{}
+		for changed := true; changed; {
+			changed = false
+			for _, f := range p.AllFuncs {
+				if !isMethod(f) || f.Blocks == nil || acquires[f] {
+					continue
+				}
+				for _, l := range mutexCallsIn(p, f) {
+					if l.kind == "Lock" || l.kind == "RLock" {
+						acquires[f], changed = true, true
+					}
+				}
+				for _, c := range callsIn(f) {
+					if sc := c.Common().StaticCallee(); sc != nil && acquires[sc] && !acquires[f] {
+						acquires[f], changed = true, true
+					}
+				}
+			}
+		}
+		for _, f := range p.AllFuncs {
+			if !isMethod(f) || f.Blocks == nil || f.Synthetic != "" {
+				continue
+			}
+			var acqs []ssa.Instruction
+			for _, l := range mutexCallsIn(p, f) {
+				if (l.kind == "Lock" || l.kind == "RLock") && !l.deferred {
+					acqs = append(acqs, l.ins)
+				}
+			}
+			for _, c := range callsIn(f) {
+				if sc := c.Common().StaticCallee(); sc != nil && acquires[sc] && isMethod(sc) {
+					if _, isDefer := c.(*ssa.Defer); !isDefer {
+						acqs = append(acqs, c.(ssa.Instruction))
+					}
+				}
+			}
+			if len(acqs) == 0 {
+				continue
+			}
+			n++
+			construct := fmt.Sprintf("%s: one critical section per call", funcName(f))
+			var second ssa.Instruction
+			for _, a1 := range acqs {
+				pa := posOf(a1)
+				hit, _ := searchFrom(pa.b, pa.i+1, searchOpts{bad: func(i ssa.Instruction) bool {
+					for _, a2 := range acqs {
+						if i == a2 {
+							return true
+						}
+					}
+					return false
+				}})
+				if hit != nil {
+					second = hit
+				}
+			}
+			if second != nil {
+				res.bad(rule, construct, p.pos(second.Pos()), "the method takes the cache's lock a second time in one call (directly or through a method it calls): what it read in the first critical section (the ends of the cached window) and what it reads in the second (the events) belong to different states of the cache once an insert falls in between - the watch resumes behind an event it did not replay, or replays one it also receives live")
+			} else {
+				res.ok(rule, construct, p.pos(acqs[0].Pos()), "at most one acquisition on every path")
+			}
+		}
+	}
+	if n == 0 {
+		res.und(rule, "event cache: critical sections", "-", "no method of a ring type takes the ring's lock")
+	}
+}
